@@ -18,6 +18,12 @@ ASSUMPTIONS = [
     'function results embed version tag, arguments and every observation; output contents embed a digest of the observations',
 ]
 CFG = gen.cfg_with(max_root=6, max_funcs=6)
+CFG_BIG = gen.cfg_with(universe=gen.UNIV_BIG, max_root=7, max_funcs=6, max_body=5)
+
+
+def cfg(tier):
+    # the thorough tier alternates between the 16-path universe (dense collisions) and a 43-path one (deeper trees)
+    return CFG
 
 
 def drive(draw, h, cfg):
@@ -55,11 +61,25 @@ def nontrivial(h):
 
 
 def plan(tier, seed):
-    return histprop.plan_shards(tier, seed, 16000, 400000)
+    shards = histprop.plan_shards(tier, seed, 16000, 400000)
+    if tier == 'thorough':
+        for sh in shards[1::2]:
+            sh['big'] = True
+    return shards
+
+
+class _Big:
+    """The same check over the larger universe (thorough tier, every other shard)."""
+    CLAUSES = CLAUSES
+    CFG = CFG_BIG
+    drive = staticmethod(lambda draw, h, cfg: drive(draw, h, cfg))
+    nontrivial = staticmethod(lambda h: h.c01_nontrivial)
 
 
 def run_shard(shard):
     import sys
+    if shard.get('big'):
+        return histprop.run_history_shard(_Big, shard)
     return histprop.run_history_shard(sys.modules[__name__], shard)
 
 
@@ -83,5 +103,5 @@ LEVEL_TEXT = ('Randomised differential exploration against an executable referen
               'semantics: every build of every generated history is compared (return value / exception class, full tree with '
               'bytes). The property quantifies over programs x histories, so generated-input search with an oracle that '
               'computes the expected outcome for any scenario is the appropriate strength; it cannot show absence.')
-LEVEL_NOTE = ('Trusted: fbverif/model.py (about 300 lines, no caching) and the DSL interpreter shared by both sides. Small-scope '
-              'universe (16 paths, <=5 functions, <=10 steps; thorough tier the same bounds with 25x the cases).')
+LEVEL_NOTE = ('Trusted: fbverif/model.py (about 350 lines, no caching) and the DSL interpreter shared by both sides. Small-scope '
+              'universe (16 paths, <=6 functions, <=13 steps; the thorough tier runs 25x the cases, half of them over a 43-path universe).')
